@@ -160,7 +160,8 @@ theorem emu_refines_term_long {t : Term.T} {e : Emu} {rows cols : Nat} (f : Nat)
       obtain ⟨rfl, rfl⟩ := heq
       rw [if_pos ⟨hf, h84⟩] at h
       exact h
-    · rename_i hne; exact absurd rfl (hne f pm)
+    · rename_i heq; cases heq
+    · rename_i hne _; exact absurd rfl (hne f pm)
   exact emu_refines_step_long _ tok
     ⟨f, pm, rfl, hf, h84, h', fun ps hps => absurd hps (tokOf_one_not_sgr f _ tok hf h' ps), fun g w hc => by cases hc⟩ s2
 
@@ -186,7 +187,8 @@ theorem emu_refines_term_two {t : Term.T} {e : Emu} {rows cols : Nat} (f : Nat) 
       obtain ⟨rfl, rfl⟩ := heq
       rw [if_neg hno, if_pos ⟨hf, hl⟩] at h
       exact h
-    · rename_i hne; exact absurd rfl (hne f pm)
+    · rename_i heq; cases heq
+    · rename_i hne _; exact absurd rfl (hne f pm)
   exact emu_refines_step_two f pm tok hf hl h' s2
 
 /-- Non-vacuity: `CSI 2;3;9 H` is CUP 2 3, `CSI 1;2;7:1;0 r` is DECSTBM 1 2; a sub-parameter in one of the first two is outside. -/
@@ -218,6 +220,29 @@ theorem emu_hyperlink {t : Term.T} {e : Emu} {rows cols : Nat} (s2 : Sim2 t e ro
     ∃ r, emuStep e (.osc ([56, 59] ++ params ++ [59] ++ url) {}) = .ok r ∧
       Sim2 { t with link := url } r.1 rows cols ∧ r.1.cur.st.linkParams = params :=
   ⟨_, osc8_eq e params url ho hP, sim2_setLink s2 params url, rfl⟩
+
+/-- **OSC 8 as an operation of the vocabulary** (round 3): `Spec.Term` now has the token `osc8 params url` (the hyperlink of
+    the glyphs printed from now on), `tokOfX` maps every payload `8;params;url` to it, and the step through the REAL
+    dispatcher (`emuStep` → `osc`, the `cutString` splits, the `vt.OSC8` switch) refines the reference's step, for every
+    related pair of states, every payload and either base64 verdict. -/
+theorem emu_refines_term_osc8 {t : Term.T} {e : Emu} {rows cols : Nat} (d : List Nat) (info : OscInfo) (tok : Term.Tok)
+    (ho : e.osc8 = true) (h : tokOfX (.osc d info) = some tok) (s2 : Sim2 t e rows cols) :
+    ∃ r, emuStep e (.osc d info) = .ok r ∧ Refines2 (Term.step t tok) r.1 rows cols := by
+  have h' : osc8Tok d = some tok := h
+  have hshape : ∃ P U, tok = .osc8 P U := by
+    unfold osc8Tok at h'
+    split at h'
+    · split at h'
+      · cases h'; exact ⟨_, _, rfl⟩
+      · cases h'
+    · cases h'
+  obtain ⟨P, U, rfl⟩ := hshape
+  exact osc8_step s2 d info P U ho h'
+
+/-- Non-vacuity: `OSC 8 ; id=1 ; http://x ST` and the closing `OSC 8 ; ; ST` are in the vocabulary; `OSC 0 ; title` is not. -/
+example : tokOfX (.osc [56, 59, 105, 100, 61, 49, 59, 104, 116, 116, 112, 58, 47, 47, 120] {}) =
+      some (.osc8 [105, 100, 61, 49] [104, 116, 116, 112, 58, 47, 47, 120]) ∧
+    tokOfX (.osc [56, 59, 59] {}) = some (.osc8 [] []) ∧ tokOfX (.osc [48, 59, 116] {}) = none := by decide
 
 /-- `tokOfX` agrees with these statements: its tokens for the two cursor functions. -/
 example : tokOfX (.csi [63, 108] [(25, [])]) = some (.showCursor false) ∧
